@@ -12,6 +12,37 @@ import vxlib  # noqa: E402
 from vxlib import Undecided  # noqa: E402
 
 ASSUMPTIONS = [
+    "one-message wrapper methods of KeyKeeperSharedState (set_key, get_key, set_secure_channel_state, get_current_secure_channel_state, "
+    "{get,set}_{wireserver,imds,hostga}_rule_id, {get,set}_{wireserver,imds,hostga}_rules) are stubs: each is ONE atomic operation on the abstract actor "
+    "state S = (key, state, rule id x3, computed rules x3) (the actor arms and which message each sends are decided in unit `actors`); an Err reply sets "
+    "the ghost flag `failed` and leaves S unconstrained -- every C09 clause about S is stated for iterations without a failed actor call",
+    "single writer (rely/guarantee, DESIGN 2.3): a syntactic census over proxy_agent/src on every run shows that outside #[cfg(test)] items the mutating "
+    "wrapper methods are called only from KeyKeeper::loop_poll (and, inside key_keeper_wrapper.rs, only by the composite methods verified here); "
+    "therefore S is NOT havocked between two awaits of an iteration. If the census changes the unit is UNDECIDED",
+    "set_*_rules(Some(item)) stores computed(item) = ComputedAuthorizationItem::from_authorization_item(item) (C02's compute; uninterpreted here)",
+    "host stubs key::get_status / acquire_key / attest_key: real signatures, HTTP bodies not verified; get_status returns Ok only for a document that "
+    "passed validate() (its last two statements are verified as the slice vx_get_status_tail); acquire/attest record their call and result in the ghost Host",
+    "key-store functions fetch_key / store_key / check_key: contracts PROVED in unit `keystore` (same contract text imported from its unit.py), assumed here",
+    "redirector::update_{wire_server,imds,hostga}_redirect_policy (stubs): each records (endpoint, flag) in the ghost Redir; that the BPF map is then "
+    "programmed accordingly is C06's business",
+    "stubs without behaviour that matters here: logger::{write,write_information,write_warning,write_error}, helpers::write_startup_event, "
+    "event_logger::write_event, provision::{key_latched,key_latch_ready_state_reset} (census: make no mutating key-keeper call), "
+    "AgentStatusSharedState::set_module_status_message, AuthorizationRulesForLogging::{new,write_all} (C19), acl::acl_directory, "
+    "misc_helpers::{try_create_folder,path_to_string}, KeyKeeper::{loop_poll (as a whole),stop}",
+    "E5 slices: vx_poll_once = loop body of loop_poll from `let status = match key::get_status(..)` to its end with `continue` -> `return`; DROPPED: the "
+    "statements before the loop (get_notify, set_module_state(RUNNING)), the sleep/notify tokio::select! (except the then-block lifted as "
+    "vx_notified_reset), the provision time-up and event-thread start-up statements; that the loop runs the body repeatedly is not verified",
+    "poll_secure_channel_status: its tokio::select! (Verus crashes on the macro) is moved verbatim into the generated stub vx_e9_poll_select (E9)",
+    "format!(\"{} - {} - {}\", a, b, c) == a + \" - \" + b + \" - \" + c (E9 stub whose contract is generated from the literal in the tree); "
+    "str::to_lowercase is an uninterpreted function `lower`; the hand-written Clone of AuthorizationItem returns an equal document; derived/hand-written "
+    "Clone of the actor handles, CancellationToken returns an equal handle",
+    "HOST CONTRACT used by the pure convergence lemma only (hypotheses, not axioms): the rule id determines the rule content (host_consistent), an empty "
+    "id names no rules; KEY-STORE NAMING hypothesis of one clause: the file <g>.key holds a key whose guid is g (names_agree; preserved by "
+    "store_local_key for dot-free guids, lemma in unit keystore)",
+    "the types of key.rs (KeyStatus, AuthorizationRules, AuthorizationItem, Key transparent; the rule detail types opaque) and the error enums are kept "
+    "verbatim outside verus!{}; E13 placeholders: the five actor handle types",
+    "everything listed for unit keystore's fs model (contracts/keystore/fs_spec.rs, deps.rs are included)",
+    "&str / String extensionality; String == String / Option<String> != Option<String> compare character sequences (vstd PartialEqSpec + axioms)",
 ]
 FN_PROPS = {}
 
@@ -188,8 +219,8 @@ def keystore_contracts():
 
 POLL_CONTRACT = """
         requires
-            old(fs).safe(),
-            fresh(*old(a), *old(h), *old(rd)),
+            old(fs).safe(),  // @C08.poll.crash_invariant_on_entry
+            fresh(*old(a), *old(h), *old(rd)),  // @C09.poll.iteration_starts_with_empty_records
         ensures
             final(fs).safe(),  // @C08.poll.crash_invariant_holds_on_every_exit
             // ---- a poll whose status request fails or returns an invalid document changes nothing
